@@ -15,9 +15,9 @@ def run(run):
     run.assumptions = ['token-level mutations only (lexer-level errors are outside the quantifier)',
                        "trailing input that cannot begin a declaration is tolerated by the grammar's start rule (no EOF)"]
     A = 'harness.replay_mut'
-    plan = [('LTiny', 'single', 1, 1), ('LDef', 'star', 2, 1), ('LDef', 'chain', 3, 2)] if quick else \
+    plan = [('LTiny', 'single', 1, 1), ('LDef', 'star', 2, 1), ('LDef', 'chain', 3, 2), ('LTiny', 'samename', 5, 1)] if quick else \
            [('LTiny', 'single', 1, 1), ('LDef', 'single', 1, 1), ('LDef', 'star', 2, 1), ('LDef', 'chain', 3, 1), ('LSet', 'middle', 2, 1),
-            ('LInh', 'single', 1, 1), ('LDup', 'star', 3, 1), ('LVar', 'repeat', 2, 1), ('LTrans', 'subdir', 2, 1)]
+            ('LInh', 'single', 1, 1), ('LDup', 'star', 3, 1), ('LVar', 'repeat', 2, 1), ('LTrans', 'subdir', 2, 1), ('LSet', 'samename', 5, 1), ('LSet', 'samename', 3, 1)]
     for lang, layout, fileno, slices in plan:
         run.gen_replay('Gen_Mut', 'Gen_Mut.cfg', A, {}, env={'VERIF_LANG': lang, 'VERIF_LAYOUT': layout, 'VERIF_FILE': fileno,
                                                              'VERIF_SLICES': slices, 'VERIF_SLICE': run.seed % slices},
